@@ -2,6 +2,7 @@ import NetVerif.Model.SendWin
 import NetVerif.Proofs.Lemmas.Flow
 import NetVerif.Proofs.Lemmas.SendWin
 import NetVerif.Proofs.Lemmas.SendWinRefine
+import NetVerif.Proofs.Lemmas.SendWinGen
 /-!
 C08 — the HTTP/2 server never sends DATA beyond the client's flow-control windows; pending data is
 sent when a window reopens.  (C09, the client side, reuses everything here with `Role.client`.)
